@@ -86,6 +86,9 @@ def build(spec):
     m.vec[np.all(m.vec == 0, axis=1)] = 1.0
     m.mass = rng.uniform(0.5, 2.0, m.n)
     m.vel = rng.normal(size=(m.n, 3))
+    # a signed integer column with a zero (like an AMR level or an id offset): distinct values, drawn after the others so
+    # that earlier columns keep their values
+    m.scalar3 = (3 * (np.random.RandomState(spec["seed"] + 17).permutation(m.n) - m.n // 2)).astype(np.int64)
     return m
 
 
@@ -102,6 +105,7 @@ def datagroup(m, osyris):
     dg["dx"] = osyris.Array(values=m.size * fac, unit=du)
     dg["scalar1"] = osyris.Array(values=m.scalar1.copy(), unit="K")
     dg["scalar2"] = osyris.Array(values=m.scalar2.copy(), unit="g/cm**3")
+    dg["scalar3"] = osyris.Array(values=m.scalar3.copy(), unit="erg")
     dg["vec"] = osyris.Vector(*[osyris.Array(values=m.vec[:, i].copy(), unit="km/s") for i in range(d)])
     dg["mass"] = osyris.Array(values=m.mass.copy(), unit="g")
     dg["velocity"] = osyris.Vector(*[osyris.Array(values=m.vel[:, i].copy(), unit="cm/s") for i in range(d)])
@@ -111,12 +115,19 @@ def datagroup(m, osyris):
 def locate(m, pts, eps=1e-9):
     """Brute-force point location.  pts [npts, d] (same length unit as m.centre).
     -> (inside index or -1 [npts], touch matrix bool [npts, ncell])"""
-    diff = np.abs(pts[:, None, :] - m.centre[None, :, :])          # [npts, ncell, d]
-    far = np.max(diff, axis=2)
+    npts = len(pts)
+    idx = np.empty(npts, dtype=np.int64)
+    touch = np.empty((npts, m.n), dtype=bool)
     h = 0.5 * m.size[None, :]
-    # coordinates far from zero lose digits: the band scales with the coordinate magnitude too
-    band = eps * (h + np.max(np.abs(pts), axis=1)[:, None] + np.max(np.abs(m.centre), axis=1)[None, :])
-    inside = far < h - band
-    touch = far <= h + band
-    idx = np.where(inside.any(axis=1), np.argmax(inside, axis=1), -1)
+    cmax = np.max(np.abs(m.centre), axis=1)[None, :]
+    # in chunks, so that the [npts, ncell, d] difference array stays small
+    step = max(1, int(2.0e6 // max(m.n * m.d, 1)))
+    for a in range(0, npts, step):
+        pp = pts[a:a + step]
+        far = np.max(np.abs(pp[:, None, :] - m.centre[None, :, :]), axis=2)          # [chunk, ncell]
+        # coordinates far from zero lose digits: the band scales with the coordinate magnitude too
+        band = eps * (h + np.max(np.abs(pp), axis=1)[:, None] + cmax)
+        inside = far < h - band
+        touch[a:a + step] = far <= h + band
+        idx[a:a + step] = np.where(inside.any(axis=1), np.argmax(inside, axis=1), -1)
     return idx, touch
